@@ -373,7 +373,10 @@ def check(ctx):
     apps = calls_named(g, "append")
     id_apps = [(n, c) for n, c in apps if receiver(c) == "self._spa_identifiers"]
     de_apps = [(n, c) for n, c in apps if receiver(c) == "self._spas"]
-    ctx.ob("R1", f"{fi.qual}::two-appends", len(id_apps) == 1 and len(de_apps) == 1, f"{fi.qual}: expected one identifier append and one descriptor append, found {len(id_apps)}/{len(de_apps)}", fi.loc)
+    if not (len(id_apps) == 1 and len(de_apps) == 1):
+        # the lists are kept under other names / appended through a helper: that each responding spa is listed exactly
+        # once, in order, only when not filtered out is decided by the discovery model's scenarios (R9)
+        ctx.note(f"{fi.qual}: identifier / descriptor appends not found under the audited names ({len(id_apps)}/{len(de_apps)}) - listing decided by the discovery model only")
     if len(id_apps) == 1 and len(de_apps) == 1:
         I, ic = id_apps[0]
         D, dc = de_apps[0]
@@ -445,10 +448,28 @@ def check(ctx):
         ctx.ob("R4", f"{d.qual}::start-stamp", bool(st) and all(gd.dom(s, hd) for s in st), f"{d.qual}: start time not stamped before the loop", d.loc)
         sp = [n for n in gd.stmt_nodes() if assigns_attr(n, "self._spas") and isinstance(n.ast.value, ast.List)]
         ctx.ob("R4", f"{d.qual}::fresh-list", bool(sp) and all(gd.dom(s, hd) for s in sp), f"{d.qual}: result list not initialised before the loop", d.loc)
+    # age and the initial wait by interpretation: a locator built by its constructor, its start stamp (found by role) set
+    # to 100 on a model clock
+    from ..absint import ClassRef as _CR4, Interp as _I4, Native as _N4, Obj as _O4, PyRaise as _PR4, Undecided as _UD4
     age = repo.own_method("GeckoAsyncLocator", "age")
-    ctx.ob("R4", "age::monotonic-minus-start", f"time.monotonic() - self.{start_stamp_attr(repo)}" in ast.unparse(age.node), "age is not now - start", age.loc)
     het = repo.own_method("GeckoAsyncLocator", "has_had_enough_time")
-    ctx.ob("R4", "has_had_enough_time", "self.age > GeckoConfig.DISCOVERY_INITIAL_TIMEOUT_IN_SECONDS" in ast.unparse(het.node), "initial wait is not DISCOVERY_INITIAL_TIMEOUT", het.loc)
+    it4 = _I4(repo, max_depth=8)
+    clock = {"t": 100.0}
+    it4.call_hook = lambda _i, node, callee, a, k: (clock["t"] if getattr(callee, "name", "") == "time.monotonic" else NotImplemented)
+    try:
+        t_init = it4.eval(ast.parse("GeckoConfig.DISCOVERY_INITIAL_TIMEOUT_IN_SECONDS", mode="eval").body, {"__mod__": het.mod, "__class__": het.cls})
+        tm4 = _O4(None, {"add_task": _N4(lambda a, k: None), "cancel_key_tasks": _N4(lambda a, k: None)}, name="taskman")
+        loc4 = it4.apply(_CR4(repo.cls("GeckoAsyncLocator")), [tm4, _N4(lambda a, k: None, "event_handler")], {})
+        it4.setattr(loc4, start_stamp_attr(repo), 100.0)
+        obs = []
+        for dt in (0.0, 2.5, t_init - 0.1, t_init, t_init + 0.1):
+            clock["t"] = 100.0 + dt
+            obs.append((dt, it4.getattr(loc4, "age"), it4.getattr(loc4, "has_had_enough_time")))
+    except (_PR4, _UD4, TypeError) as e:
+        raise AnalysisError(f"GeckoAsyncLocator.age / has_had_enough_time on the model clock: {e}")
+    ctx.ob("R4", "age::monotonic-minus-start", all(abs(a_ - dt) < 1e-9 for dt, a_, _h in obs), f"age on a model clock: (seconds since the start stamp, age) = {[(dt, a_) for dt, a_, _h in obs]}", age.loc)
+    ctx.ob("R4", "has_had_enough_time", all(h_ is (dt > t_init) for dt, _a, h_ in obs),
+           f"has_had_enough_time at (seconds since start, answer) = {[(dt, h_) for dt, _a, h_ in obs]}: not exactly 'more than DISCOVERY_INITIAL_TIMEOUT ({t_init}s) have passed'", het.loc)
     # consumer wired
     ok = any(isinstance(n, ast.Call) and call_name(n) == "broadcast" and any(k.arg == "async_on_handled" and ast.unparse(k.value) == "self._async_on_discovered" for k in n.keywords) for n in ast.walk(d.node))
     ctx.ob("R1", f"{d.qual}::consumer-wired", ok, f"{d.qual}: hello consumer not wired to _async_on_discovered", d.loc)
